@@ -19,9 +19,9 @@ EXTENDS PSLex, Json, CSV
 
 CONSTANTS Family, MaxLen, Tier, OutFile
 
-AlphaQ == {32, 10, 13, 0, 40, 41, 60, 62, 91, 123, 125, 47, 37, 92, 48, 55, 56, 97, 102, 110, 122,
+AlphaQ == {32, 10, 13, 0, 12, 40, 41, 60, 62, 91, 123, 125, 47, 37, 92, 48, 55, 56, 97, 102, 110, 122,
            117, 33, 126, 101, 35, 43, 45, 46, 120, 200}
-AlphaT == AlphaQ \cup {9, 12, 93, 57, 69, 112, 49, 50}
+AlphaT == AlphaQ \cup {9, 93, 57, 69, 112, 49, 50}
 Alpha == IF Tier = "quick" THEN AlphaQ ELSE AlphaT
 
 \* ---- spelled objects: [obj, sp] with sp one legal spelling (byte sequence)
@@ -99,7 +99,7 @@ Spelled == {
   [o |-> [t |-> "lbrace"], sp |-> <<123>>], [o |-> [t |-> "rbrace"], sp |-> <<125>>]
 }
 Seps == {<<32>>, <<9>>, <<10>>, <<13>>, <<13, 10>>, <<12>>, <<0>>, <<32, 32, 10>>, <<37, 99, 10>>, <<32, 37, 32, 41, 40, 13>>,
-         <<37, 13, 10>>, <<>>}
+         <<37, 13, 10>>, <<37, 99, 12>>, <<37, 12>>, <<>>}        \* a comment may also end at a form feed
 LastB(sp) == sp[Len(sp)]
 \* may two spellings touch without a separator?
 MayTouch(a, b) == LastB(a) \in {41, 62, 93, 125} \/ (b[1] \in Delims /\ ~(LastB(a) = 60 /\ b[1] = 60)
